@@ -25,10 +25,10 @@ RUNS = {
     "C08": {"quick": 6400, "thorough": 64000},
     "C09": {"quick": 6400, "thorough": 64000},
     "C10": {"quick": 6400, "thorough": 64000},
-    "C17": {"quick": 3200, "thorough": 32000},
-    "C18": {"quick": 3200, "thorough": 32000},
-    "C19": {"quick": 1600, "thorough": 16000},
-    "C20": {"quick": 3200, "thorough": 32000},
+    "C17": {"quick": 1200, "thorough": 12000},
+    "C18": {"quick": 2400, "thorough": 24000},
+    "C19": {"quick": 1200, "thorough": 12000},
+    "C20": {"quick": 1600, "thorough": 16000},
 }
 
 
